@@ -23,15 +23,21 @@ position and material:
 * `C05_nonterminal : C05_nonterminal_statement` — the full statement, threshold 9000 as in DESIGN.md:
   `0.95·8999 + 1450 < 10000`.
 
-The material hypothesis cannot be dropped (`C05_unbounded_example`: eleven queens against a bare king, a position
-with 107 legal moves, score 10020 — replayed on the real evaluator through the harness, `eval w 0 <fen>` = 10020).
+Before the repair of defect F10 the material hypothesis could not be dropped (`C05_unbounded_example`: eleven queens
+against a bare king, a position with 107 legal moves, heuristic sum 10020 — then also the value of `evaluate`, replayed on
+the real evaluator through the harness, `eval w 0 <fen>` = 10020).  Since the repair (`eval.clamp(NEG_INF + 1, POS_INF - 1)`
+on the heuristic result) `evaluate` returns 9999 there (`C05_unbounded_example_repaired`) and the clause holds for every
+position (`C05_nonterminal_all`, `C05_all` in `Wee/Props/Clamped.lean`); `C05_nonterminal` remains true as stated and now
+also says that on its domain the clamp is the identity.
 The constant 1450 is not sharp: maximising the same per-kind bounds over all piece counts numerically gives 1412.
 
 ## Goal B — `TreeBounded_of_potential`
 
 `TreeBounded root` (every position reachable by legal moves satisfies `MaterialBounded`, i.e. the term-by-term bound
 `|Δworths| + |Δsquares| + |Δking-edge| + |Δpawns| < 10000` with all weights 1) is a hypothesis of every C06 / C17
-theorem.  It follows from a condition decidable on the root alone:
+theorem of the development before the repair of F10 (now REDUNDANT there: the `_all` theorems of
+`Wee/Props/Clamped.lean` drop it; the results of this section stay true and are kept).  It follows from a condition
+decidable on the root alone:
 
 * `RootBounded s` := each side has at most 16 men and a promotion potential
   `phi s c = 900·pawns + 300·knights + 350·bishops + 500·rooks + 900·queens < 9000`;
@@ -203,7 +209,7 @@ theorem MaterialBounded_of_potential (s : State) (hl : LegalPos s = true) (hd : 
 reachable from the root by legal moves satisfies the material bound — follows from a condition on the root alone:
 legal, no overlaps, at most 16 men a side and a promotion potential below 9000 for both sides.
 (The start position does NOT satisfy it, and rightly so: nine queens are reachable from it, and with them the
-evaluator's score leaves `(-10000, 10000)`, see `C05.C05_unbounded_example`.) -/
+evaluator's heuristic sum leaves `(-10000, 10000)`, see `C05.C05_unbounded_example`.) -/
 theorem TreeBounded_of_potential (root : State) (hl : LegalPos root = true) (hd : DisjointBoard root.pieces)
     (hb : RootBounded root) : TreeBounded root := by
   intro s' hs'
